@@ -23,7 +23,17 @@
    maps 413 to `return nil`, so the batch is acknowledged although the events to the right of that
    event were never sent.  FALSE is the ideal (skip the undeliverable event, carry on).
 
+   Fault family: the sink answers 5xx to EVERY attempt of one batch.  out() returns the error, the
+   RetriableBatcher (pipeline/backoff.go) calls out() again with the same batch until numTries > retry,
+   then gives up: onError -> Router.Fail (dead queue, if configured, and then batch.reset()), the batch is
+   committed, the Batch OBJECT goes back to freeBatches, is refilled with the next events and handed to the
+   same worker (one worker = one Batch object), whose worker data has survived.  Nothing of the given-up batch
+   may show up in a later request.
+
    Mechanism switches for spec mutants (TRUE = mechanism present, as in the code):
+       M_ReencodeAfterGiveUp  out() encodes the batch it is given on every call.  FALSE = an "encode once per
+                     batch object" cache in the worker data (marker = the *Batch pointer), dropped on success
+                     and on 400/413 but not when the retries run out
        M_ResetBegin  `data.begin = data.begin[:0]` at the start of out()
        M_ResetBuf    `data.outBuf = data.outBuf[:0]` at the start of out()
        M_SkipParent  `if event.IsChildParentKind() { continue }` in Batch.ForEach                  *)
@@ -37,23 +47,27 @@ CONSTANTS MaxN1,           \* maximal batch size in single-batch cases
           MaxBig,          \* at most this many big events per batch
           SplitModes,      \* values of split_batch explored
           MaxPatBatches,   \* cases with at most this many batches carry a 413 pattern (on one of their batches)
+          Retry,           \* `retry` of the plugin: the RetriableBatcher gives up when numTries > Retry
+          DeadQueueModes,  \* values of "a dead queue is configured" explored in the fault family
           D14_SingleTooLargeAborts,
-          M_ResetBegin, M_ResetBuf, M_SkipParent
+          M_ResetBegin, M_ResetBuf, M_SkipParent, M_ReencodeAfterGiveUp
 
 ASSUME MaxBatches \in 1..3
 
-VARIABLES cs,        \* the case: [split, batches, pats]
+VARIABLES cs,        \* the case: [split, batches, pats, fail, dq]
           k,         \* index of the batch the worker is processing (0 = none yet)
-          pc,        \* idle | prologue | foreach | close | send | split | ret | outret | done
+          pc,        \* idle | prologue | foreach | close | send | split | ret | outret | retry | done
           arr, blen, \* data.outBuf: backing array (high-water content survives [:0]) and current length
           grown,     \* cap(outBuf) > BatchSize*avgEventSize
           begin,     \* data.begin
           fi, ec,    \* ForEach position, eventsCount
-          stack, rv, \* sendSplit call stack <<[l, r, st]>>, value being returned: none | ok | e413
+          stack, rv, \* sendSplit call stack <<[l, r, st]>>, value being returned: none | ok | e413 | e5xx
+          tries,     \* RetriableBatcher.Out: numTries
+          encoded,   \* (mutant only) worker data: "outBuf/begin were built for the Batch object in hand"
           reqs,      \* history: requests of the current batch <<[body, ok]>>
           hist       \* history: per finished batch [reqs, acked]
 
-vars == <<cs, k, pc, arr, blen, grown, begin, fi, ec, stack, rv, reqs, hist>>
+vars == <<cs, k, pc, arr, blen, grown, begin, fi, ec, stack, rv, tries, encoded, reqs, hist>>
 
 -----------------------------------------------------------------------------
 (* wire cells: an event of size class s is framed as one header cell and s document cells *)
@@ -88,6 +102,8 @@ Payload(b)       == LET nb == SelectSeq(b, LAMBDA e : e.kind # "parent") IN [x \
 Rejects(pat, S)  == \E m \in pat : m \subseteq S
 \* an event the sink refuses even on its own cannot be delivered by any request (monotonicity)
 Deliverable(b, pat) == SelectSeq(Payload(b), LAMBDA id : ~Rejects(pat, {id}))
+\* what the accepted requests of batch x must carry: nothing if the sink fails every attempt (configured give-up)
+Exp(x) == IF cs.fail[x] THEN <<>> ELSE Deliverable(cs.batches[x], cs.pats[x])
 HasIterable(b)   == \E x \in DOMAIN b : b[x].kind # "parent"       \* Batch.hasIterableEvents
 Accepted(rs)     == Flatten([x \in 1..Len(SelectSeq(rs, LAMBDA r : r.ok)) |->
                                Parse(SelectSeq(rs, LAMBDA r : r.ok)[x].body)])
@@ -111,10 +127,15 @@ Init ==
   /\ \E split \in SplitModes : \E nb \in 1..MaxBatches : \E ns \in ShrinkSeqs(nb) : \E bs \in BatchSeqs(ns) :
        \E sb \in (IF split /\ nb <= MaxPatBatches THEN 1..nb ELSE {0}) :
          \E pt \in (IF sb = 0 THEN {{}} ELSE PatsFor(bs[sb])) :
-           cs = [split |-> split, batches |-> bs, pats |-> [x \in 1..nb |-> IF x = sb THEN pt ELSE {}]]
+          \* fault family: no 413 pattern, no big event; one batch (fb) fails on every attempt
+          \E fb \in (IF pt = {} /\ \A x \in 1..nb : \A y \in DOMAIN bs[x] : bs[x][y].size = 1 THEN 0..nb ELSE {0}) :
+           \E dq \in (IF fb = 0 THEN {FALSE} ELSE DeadQueueModes) :
+             cs = [split |-> split, batches |-> bs, pats |-> [x \in 1..nb |-> IF x = sb THEN pt ELSE {}],
+                   fail |-> [x \in 1..nb |-> x = fb], dq |-> dq]
   /\ k = 0 /\ pc = "idle"
   /\ arr = <<>> /\ blen = 0 /\ grown = FALSE /\ begin = <<>>
   /\ fi = 0 /\ ec = 0 /\ stack = <<>> /\ rv = "none" /\ reqs = <<>> /\ hist = <<>>
+  /\ tries = 0 /\ encoded = FALSE
 
 Cur == cs.batches[k]
 Pat == cs.pats[k]
@@ -130,23 +151,30 @@ BufSlice(lo, hi) ==            \* data[lo:hi]; legal up to the capacity, so stal
 (* Batcher.work: takes the next full batch; out() is called only if the batch has iterable events *)
 Take ==
   /\ pc = "idle" /\ k < Len(cs.batches)
-  /\ k' = k + 1 /\ reqs' = <<>>
+  /\ k' = k + 1 /\ reqs' = <<>> /\ tries' = 0
   /\ IF HasIterable(cs.batches[k + 1])
        THEN pc' = "prologue" /\ hist' = hist
-       ELSE /\ hist' = Append(hist, [reqs |-> <<>>, acked |-> TRUE])        \* commitBatch without out()
+       ELSE /\ hist' = Append(hist, [reqs |-> <<>>, acked |-> TRUE, gaveup |-> FALSE])   \* commitBatch without out()
             /\ pc' = IF k + 1 < Len(cs.batches) THEN "idle" ELSE "done"
-  /\ UNCHANGED <<cs, arr, blen, grown, begin, fi, ec, stack, rv>>
+  /\ UNCHANGED <<cs, arr, blen, grown, begin, fi, ec, stack, rv, encoded>>
 
 (* out(): cap rule; eventsCount := 0; begin = begin[:0]; outBuf = outBuf[:0] *)
 Prologue ==
   /\ pc = "prologue"
-  /\ arr' = IF grown THEN <<>> ELSE arr                 \* make([]byte, 0, BatchSize*avgEventSize)
-  /\ grown' = FALSE
-  /\ blen' = IF M_ResetBuf \/ grown THEN 0 ELSE blen
-  /\ begin' = IF M_ResetBegin THEN <<>> ELSE begin
-  /\ fi' = 1 /\ ec' = 0
-  /\ pc' = "foreach"
-  /\ UNCHANGED <<cs, k, stack, rv, reqs, hist>>
+  /\ IF ~M_ReencodeAfterGiveUp /\ encoded
+       THEN \* mutant: `if data.encoded != batch {...}` skipped -- one worker, one Batch object, so the pointer
+            \* compares equal also for the NEXT batch; eventsCount := len(begin) - 1
+            /\ ec' = Len(begin) - 1
+            /\ IF cs.split THEN stack' = <<[l |-> 0, r |-> Len(begin) - 1, st |-> "call"]>> /\ pc' = "split"
+                           ELSE stack' = <<>> /\ pc' = "send"
+            /\ UNCHANGED <<arr, grown, blen, begin, fi>>
+       ELSE /\ arr' = IF grown THEN <<>> ELSE arr            \* make([]byte, 0, BatchSize*avgEventSize)
+            /\ grown' = FALSE
+            /\ blen' = IF M_ResetBuf \/ grown THEN 0 ELSE blen
+            /\ begin' = IF M_ResetBegin THEN <<>> ELSE begin
+            /\ fi' = 1 /\ ec' = 0
+            /\ pc' = "foreach" /\ stack' = stack
+  /\ UNCHANGED <<cs, k, rv, tries, encoded, reqs, hist>>
 
 (* one iteration of batch.ForEach(func(event){ eventsCount++; begin = append(begin, len(outBuf)); appendEvent }) *)
 ForEach ==
@@ -161,7 +189,7 @@ ForEach ==
                     /\ arr' = BufAppend(arr, blen, Cells(e))
                     /\ blen' = blen + Len(Cells(e))
                     /\ grown' = (grown \/ e.size > 1)
-  /\ UNCHANGED <<cs, k, stack, rv, reqs, hist>>
+  /\ UNCHANGED <<cs, k, stack, rv, tries, encoded, reqs, hist>>
 
 (* begin = append(begin, len(outBuf)); then sendSplit(0, eventsCount, begin, outBuf) or send(outBuf) *)
 Close ==
@@ -169,17 +197,21 @@ Close ==
   /\ begin' = Append(begin, blen)
   /\ IF cs.split THEN stack' = <<[l |-> 0, r |-> ec, st |-> "call"]>> /\ pc' = "split"
                  ELSE stack' = <<>> /\ pc' = "send"
-  /\ UNCHANGED <<cs, k, arr, blen, grown, fi, ec, rv, reqs, hist>>
+  /\ encoded' = ~M_ReencodeAfterGiveUp                   \* mutant: data.encoded = batch
+  /\ UNCHANGED <<cs, k, arr, blen, grown, fi, ec, rv, tries, reqs, hist>>
+
+\* the sink: 5xx for every request of a failing batch, else 413 by the pattern, else 200
+Status(body) == IF cs.fail[k] THEN 500 ELSE IF Rejects(Pat, IdsIn(body)) THEN 413 ELSE 200
 
 (* send(data.outBuf) *)
 Send ==
   /\ pc = "send"
   /\ LET body == BufSlice(0, blen)
-         ok   == ~Rejects(Pat, IdsIn(body))
-     IN /\ reqs' = Append(reqs, [body |-> body, ok |-> ok])
-        /\ rv' = IF ok THEN "ok" ELSE "e413"
+         st   == Status(body)
+     IN /\ reqs' = Append(reqs, [body |-> body, ok |-> st = 200, st |-> st])
+        /\ rv' = IF st = 200 THEN "ok" ELSE IF st = 413 THEN "e413" ELSE "e5xx"
   /\ pc' = "outret"
-  /\ UNCHANGED <<cs, k, arr, blen, grown, begin, fi, ec, stack, hist>>
+  /\ UNCHANGED <<cs, k, arr, blen, grown, begin, fi, ec, stack, tries, encoded, hist>>
 
 Top == stack[Len(stack)]
 Pop == SubSeq(stack, 1, Len(stack) - 1)
@@ -191,9 +223,12 @@ SplitCall ==
      IF l = r
        THEN /\ rv' = "ok" /\ stack' = Pop /\ pc' = "ret" /\ reqs' = reqs
        ELSE LET body == BufSlice(begin[l + 1], begin[r + 1])            \* data[begin[left]:begin[right]]
-                ok   == ~Rejects(Pat, IdsIn(body))
-            IN /\ reqs' = Append(reqs, [body |-> body, ok |-> ok])
+                st   == Status(body)
+                ok   == st = 200
+            IN /\ reqs' = Append(reqs, [body |-> body, ok |-> ok, st |-> st])
                /\ IF ok THEN rv' = "ok" /\ stack' = Pop /\ pc' = "ret"
+                  ELSE IF st = 500
+                    THEN rv' = "e5xx" /\ stack' = Pop /\ pc' = "ret"      \* default: return statusCode, err
                   ELSE IF r - l = 1
                     THEN \* "can't save even one log"
                          /\ rv' = IF D14_SingleTooLargeAborts THEN "e413" ELSE "ok"
@@ -202,42 +237,59 @@ SplitCall ==
                          /\ stack' = Append(Append(Pop, [l |-> l, r |-> r, st |-> "afterLeft"]),
                                             [l |-> l, r |-> (l + r) \div 2, st |-> "call"])
                          /\ rv' = "none" /\ pc' = "split"
-  /\ UNCHANGED <<cs, k, arr, blen, grown, begin, fi, ec, hist>>
+  /\ UNCHANGED <<cs, k, arr, blen, grown, begin, fi, ec, tries, encoded, hist>>
 
 (* a sendSplit call returned rv to its caller *)
 SplitRet ==
   /\ pc = "ret"
   /\ IF stack = <<>> THEN pc' = "outret" /\ UNCHANGED <<stack, rv>>
-     ELSE IF rv = "e413"
+     ELSE IF rv \in {"e413", "e5xx"}
        THEN stack' = Pop /\ pc' = "ret" /\ rv' = rv                      \* if err != nil { return statusCode, err }
        ELSE \* return p.sendSplit(middle, right, begin, data)
             /\ stack' = Append(Pop, [l |-> (Top.l + Top.r) \div 2, r |-> Top.r, st |-> "call"])
             /\ pc' = "split" /\ rv' = "none"
-  /\ UNCHANGED <<cs, k, arr, blen, grown, begin, fi, ec, reqs, hist>>
+  /\ UNCHANGED <<cs, k, arr, blen, grown, begin, fi, ec, tries, encoded, reqs, hist>>
 
-(* tail of out(): 413 (and 400) are "non-retryable": logged, `return nil`; success: `return nil`.
-   Either way the RetriableBatcher sees nil and the batch is committed. *)
+(* tail of out(): 413 (and 400) are "non-retryable": logged, `return nil`; success: `return nil` -- the
+   RetriableBatcher sees nil and the batch is committed.  Any other failure: `return err`. *)
 OutReturn ==
   /\ pc = "outret"
-  /\ hist' = Append(hist, [reqs |-> reqs, acked |-> TRUE])
-  /\ pc' = IF k < Len(cs.batches) THEN "idle" ELSE "done"
-  /\ UNCHANGED <<cs, k, arr, blen, grown, begin, fi, ec, stack, rv, reqs>>
+  /\ IF rv = "e5xx"
+       THEN pc' = "retry" /\ UNCHANGED <<hist, encoded>>
+       ELSE /\ hist' = Append(hist, [reqs |-> reqs, acked |-> TRUE, gaveup |-> FALSE])
+            /\ encoded' = FALSE                                          \* mutant: data.encoded = nil
+            /\ pc' = IF k < Len(cs.batches) THEN "idle" ELSE "done"
+  /\ UNCHANGED <<cs, k, arr, blen, grown, begin, fi, ec, stack, rv, tries, reqs>>
 
-Next == Take \/ Prologue \/ ForEach \/ Close \/ Send \/ SplitCall \/ SplitRet \/ OutReturn
+(* RetriableBatcher.Out after outFn returned an error: give up when numTries > AttemptNum -- onRetryError
+   (Router.Fail per event; with a dead queue batch.reset()), return; Batcher.work then commits the batch and
+   puts the Batch object back into freeBatches -- else numTries++, wait, call outFn again with the same batch *)
+RetryOrGiveUp ==
+  /\ pc = "retry"
+  /\ IF tries > Retry
+       THEN /\ hist' = Append(hist, [reqs |-> reqs, acked |-> TRUE, gaveup |-> TRUE])
+            /\ pc' = IF k < Len(cs.batches) THEN "idle" ELSE "done"
+            /\ tries' = tries
+       ELSE tries' = tries + 1 /\ pc' = "prologue" /\ hist' = hist
+  /\ UNCHANGED <<cs, k, arr, blen, grown, begin, fi, ec, stack, rv, encoded, reqs>>
+
+Next == Take \/ Prologue \/ ForEach \/ Close \/ Send \/ SplitCall \/ SplitRet \/ OutReturn \/ RetryOrGiveUp
 Spec == Init /\ [][Next]_vars
 
 -----------------------------------------------------------------------------
 (* properties; evaluated when out() is about to return (pc = "outret") *)
 TypeOK ==
-  /\ pc \in {"idle", "prologue", "foreach", "close", "send", "split", "ret", "outret", "done"}
+  /\ pc \in {"idle", "prologue", "foreach", "close", "send", "split", "ret", "outret", "retry", "done"}
   /\ blen <= Len(arr) /\ k \in 0..Len(cs.batches)
-  /\ rv \in {"none", "ok", "e413"}
+  /\ rv \in {"none", "ok", "e413", "e5xx"} /\ tries \in 0..(Retry + 1)
 
 \* every request body parses in the sink's framing
 FramingOK == \A x \in DOMAIN reqs : ParseOK(reqs[x].body)
 
-\* without splitting: exactly one request, and it carries Payload(b) -- nothing stale, nothing missing
-BodyIs == (pc = "outret" /\ ~cs.split) => (Len(reqs) = 1 /\ Parse(reqs[1].body) = Payload(Cur))
+\* without splitting: one request per attempt, and each carries Payload(b) of the batch being sent -- nothing
+\* stale (of an earlier, possibly given-up batch), nothing missing
+BodyIs == (pc = "outret" /\ ~cs.split) =>
+             (Len(reqs) = tries + 1 /\ \A x \in DOMAIN reqs : Parse(reqs[x].body) = Payload(Cur))
 
 \* with splitting: no request ever carries anything but events of this batch, in batch order, ...
 SplitBodiesInOrder ==
@@ -246,10 +298,10 @@ SplitBodiesInOrder ==
         Parse(reqs[x].body) = SubSeq(Payload(Cur), lo, hi)
 
 SingleTooLarge == \E id \in Range(Payload(Cur)) : Rejects(Pat, {id})
-Covered(rs, b, pat) == Accepted(rs) = Deliverable(b, pat)
+Covered(rs, x) == Accepted(rs) = Exp(x)
 
 \* ... and the accepted requests cover the deliverable events exactly once (STRICT statement)
-SplitCovers == (pc = "outret" /\ cs.split) => Covered(reqs, Cur, Pat)
+SplitCovers == (pc = "outret" /\ cs.split) => Covered(reqs, k)
 
 \* what the transcription really guarantees: strict unless D14's enabling condition holds, and then exactly the
 \* deliverable events in front of the first undeliverable one were sent, the rest of the batch never
@@ -261,14 +313,19 @@ SplitCoversModuloD14 ==
   (pc = "outret" /\ cs.split) =>
      IF D14_SingleTooLargeAborts /\ SingleTooLarge
        THEN Accepted(reqs) = PrefixBeforeFirstTooLarge(Cur, Pat)
-       ELSE Covered(reqs, Cur, Pat)
+       ELSE Covered(reqs, k)
 
 \* the batch is acknowledged only when covered (modulo D14)
 AckOnlyCovered ==
   \A x \in DOMAIN hist :
-     hist[x].acked => \/ Covered(hist[x].reqs, cs.batches[x], cs.pats[x])
+     hist[x].acked => \/ Covered(hist[x].reqs, x)
                       \/ D14_SingleTooLargeAborts /\ cs.split
                            /\ \E id \in Range(Payload(cs.batches[x])) : Rejects(cs.pats[x], {id})
+
+\* a batch is given up only after Retry + 2 attempts that all failed, and only a failing batch is given up
+GiveUpOnlyAfterRetries ==
+  \A x \in DOMAIN hist : /\ hist[x].gaveup <=> (cs.fail[x] /\ HasIterable(cs.batches[x]))
+                          /\ hist[x].gaveup => Len(hist[x].reqs) = Retry + 2
 
 \* the recursion sends a request only for a range that has not been accepted yet: no id is accepted twice
 NoDuplicateAccept ==
@@ -280,11 +337,13 @@ ExportRec ==
   [split   |-> cs.split,
    batches |-> cs.batches,
    pats    |-> [x \in DOMAIN cs.pats |-> cs.pats[x]],
+   fail    |-> cs.fail,
+   dq      |-> cs.dq,
    payload |-> [x \in DOMAIN cs.batches |-> Payload(cs.batches[x])],
-   exp     |-> [x \in DOMAIN cs.batches |-> Deliverable(cs.batches[x], cs.pats[x])],
+   exp     |-> [x \in DOMAIN cs.batches |-> Exp(x)],
    model   |-> [x \in DOMAIN hist |-> [y \in DOMAIN hist[x].reqs |->
-                   [ids |-> Parse(hist[x].reqs[y].body), ok |-> hist[x].reqs[y].ok]]],
-   d14     |-> [x \in DOMAIN hist |-> ~Covered(hist[x].reqs, cs.batches[x], cs.pats[x])]]
+                   [ids |-> Parse(hist[x].reqs[y].body), ok |-> hist[x].reqs[y].ok, st |-> hist[x].reqs[y].st]]],
+   d14     |-> [x \in DOMAIN hist |-> ~Covered(hist[x].reqs, x)]]
 
 Export == pc = "done" => PrintT(ToJson(ExportRec))
 
